@@ -9,21 +9,21 @@ mkdir -p "$OUT"
 cp "$SD/patch.diff" "$OUT/patch.diff"
 demo=$(ls "$SD"/demo*_test.go 2>/dev/null | head -1); [ -n "$demo" ] && cp "$demo" "$OUT/demo_test.go"
 cp "$SD/README.md" "$OUT/README.seeder.md" 2>/dev/null
-conf=$("$VD/tools/confirm_seed.sh" "$SD" "$ID" "$V" 2>&1 | tail -12)
-res=$("$VD/tools/try_seed.sh" "$SD/patch.diff" 2>&1)
-own=$(echo "$res" | grep "^$ID ")
-thor=""
-if echo "$own" | grep -q missed; then
-  thor=$(SKIP_BASELINE=1 TIER=thorough "$VD/tools/try_seed.sh" "$SD/patch.diff" "$ID" 2>&1 | grep "^$ID ")
+TMPD=$(mktemp -d /tmp/keepseed-XXXXXX)
+"$VD/tools/confirm_seed.sh" "$SD" "$ID" "$V" 2>&1 | tail -12 > "$TMPD/conf"
+"$VD/tools/try_seed.sh" "$SD/patch.diff" > "$TMPD/res" 2>&1
+: > "$TMPD/thor"
+if grep -q "^$ID missed" "$TMPD/res"; then
+  SKIP_BASELINE=1 TIER=thorough "$VD/tools/try_seed.sh" "$SD/patch.diff" "$ID" 2>&1 | grep "^$ID " > "$TMPD/thor"
 fi
-python3 - "$OUT" "$ID" "$V" <<PY
-import json,sys,re
-out,ID,V=sys.argv[1:4]
-V=__import__('os').environ.get('SEED_SUFFIX',V)
-conf='''$conf'''
-res='''$res'''
-thor='''$thor'''
-readme=open(out+'/README.seeder.md').read() if __import__('os').path.exists(out+'/README.seeder.md') else ''
+python3 - "$OUT" "$ID" "$V" "$TMPD" <<'PY'
+import json,sys,re,os
+out,ID,V,tmpd=sys.argv[1:5]
+V=os.environ.get('SEED_SUFFIX',V)
+conf=open(tmpd+'/conf').read()
+res=open(tmpd+'/res').read()
+thor=open(tmpd+'/thor').read()
+readme=open(out+'/README.seeder.md').read() if os.path.exists(out+'/README.seeder.md') else ''
 caught=[l.split()[0] for l in res.splitlines() if ' CAUGHT ' in l]
 missed=[l.split()[0] for l in res.splitlines() if l.endswith(' missed')]
 broken=[l for l in res.splitlines() if ' BROKEN ' in l]
@@ -37,5 +37,6 @@ meta={
  'own_check_thorough_when_quick_missed': thor.strip(),
 }
 json.dump(meta, open(out+'/meta.json','w'), indent=1)
-print(ID+V, 'demo:', 'OK' if 'DEMO-CONFIRMED' in conf else 'NOT CONFIRMED', '| own check:', 'CAUGHT' if ID in caught else ('thorough: '+thor.strip()[:60] if thor else 'MISSED'), '| caught by:', ' '.join(caught))
+print(ID+V, 'demo:', 'OK' if 'DEMO-CONFIRMED' in conf else 'NOT CONFIRMED', '| own check:', 'CAUGHT' if ID in caught else ('thorough: '+thor.strip()[:60] if thor.strip() else 'MISSED'), '| caught by:', ' '.join(caught))
 PY
+rm -rf "$TMPD"
